@@ -77,7 +77,7 @@ fn depth_delta(tok: &str) -> i32 {
 // ------------------------------------------------------------------ generation
 
 fn gen_form(rng: &mut Rng, literals_with_parens: bool, defined: &mut Vec<String>) -> (String, &'static str) {
-    let c = rng.upto(if literals_with_parens { 16 } else { 12 });
+    let c = rng.upto(if literals_with_parens { 20 } else { 12 });
     match c {
         0 => {
             let name = format!("v{}", defined.len());
@@ -109,7 +109,11 @@ fn gen_form(rng: &mut Rng, literals_with_parens: bool, defined: &mut Vec<String>
         12 => ("(display \"(\")".to_string(), "paren-in-string"),
         13 => ("(cons #\\( '())".to_string(), "paren-in-character"),
         14 => ("(display \"a;b\")".to_string(), "semicolon-in-string"),
-        _ => ("(list \")\" #\\) \"(()\")".to_string(), "paren-in-string"),
+        15 => ("(list \")\" #\\) \"(()\")".to_string(), "paren-in-string"),
+        16 => ("(display \"q\\\"(\")".to_string(), "paren-in-string"),
+        17 => ("(cons #\\; '(after))".to_string(), "semicolon-in-character"),
+        18 => ("(quote |a(b;c|)".to_string(), "paren-in-identifier"),
+        _ => ("(list #\\\" 1 \")\")".to_string(), "paren-in-string"),
     }
 }
 
@@ -496,6 +500,11 @@ fn strip_comment(line: &str) -> String {
             in_str = true;
         } else if c == '#' && cs.get(i + 1) == Some(&'\\') {
             i += 2;
+        } else if c == '|' {
+            i += 1;
+            while i < cs.len() && cs[i] != '|' {
+                i += 1;
+            }
         } else if c == ';' {
             return cs[..i].iter().collect();
         }
